@@ -7,7 +7,7 @@
     ([leaf_contains_refuted] below; KNOWN_FINDINGS Cell.ContainsPoint.marginTooSmall). *)
 From Coq Require Import ZArith Reals List Bool Lia Lra Floats.
 From Flocq Require Import Core.Core IEEE754.BinarySingleNaN IEEE754.PrimFloat.
-From Geo Require Import Base.GoPrim Base.F64 Base.F64Arith Gen.CellGeom
+From Geo Require Import Base.GoPrim Base.F64 Base.F64Arith Gen.CellGeom Model.HilbertDecode
   Proofs.StUV_Mono Proofs.C12_Hilbert Proofs.C12_Ids Proofs.C12_Float Proofs.C12_Children Proofs.C12_Valid.
 Import ListNotations.
 
